@@ -118,6 +118,7 @@ type Table struct {
 	meta       RowMeta
 	rows       []*Row
 	rowmap     map[string]*Row
+	delmap     map[string]*Row
 	kvdb       db.KV
 	opt        *Option
 	autoinc    *Count
@@ -173,6 +174,7 @@ func NewTable(rowmeta RowMeta, kvdb db.KV, opt *Option) (*Table, error) {
 		meta:       rowmeta,
 		kvdb:       kvdb,
 		rowmap:     make(map[string]*Row),
+		delmap:     make(map[string]*Row),
 		opt:        opt,
 		autoinc:    count,
 		dataprefix: dataprefix,
@@ -197,6 +199,8 @@ func (table *Table) addRowCache(row *Row) {
 	primary := string(row.Primary)
 	if row.Ty == Del {
 		delete(table.rowmap, primary)
+		// the saved row is deleted by a pending Del: later lookups must not read it back from the db
+		table.delmap[primary] = row
 	} else if row.Ty == Add || row.Ty == Update {
 		table.rowmap[primary] = row
 	}
@@ -237,8 +241,22 @@ func (table *Table) findRow(primary []byte) (*Row, bool, error) {
 	if row, ok := table.rowmap[string(primary)]; ok {
 		return row, true, nil
 	}
+	if _, ok := table.delmap[string(primary)]; ok {
+		return nil, false, types.ErrNotFound
+	}
 	row, err := table.GetData(primary)
 	return row, false, err
+}
+
+// findRowOrDeleted is findRow, except that a row deleted by a pending Del is returned as it was saved
+func (table *Table) findRowOrDeleted(primary []byte) (*Row, bool, error) {
+	row, incache, err := table.findRow(primary)
+	if err == types.ErrNotFound {
+		if delrow, ok := table.delmap[string(primary)]; ok {
+			return delrow, false, nil
+		}
+	}
+	return row, incache, err
 }
 
 func (table *Table) hasIndex(name string) bool {
@@ -404,8 +422,9 @@ func (table *Table) Del(primaryKey []byte) error {
 	if err != nil {
 		return err
 	}
+	rowty := None
 	if incache {
-		rowty := row.Ty
+		rowty = row.Ty
 		table.delRowCache(row)
 		if rowty == Add {
 			return nil
@@ -414,6 +433,11 @@ func (table *Table) Del(primaryKey []byte) error {
 	//copy row
 	delrow := *row
 	delrow.Ty = Del
+	// a cached Update was never saved: the data and index records in the db are those of row.old
+	if rowty == Update {
+		delrow.Data = row.old
+		delrow.old = nil
+	}
 	table.addRowCache(&delrow)
 	return nil
 }
@@ -506,6 +530,7 @@ func (table *Table) Save() (kvs []*types.KeyValue, err error) {
 	kvs = append(kvs, kvlist...)
 	//del cache
 	table.rowmap = make(map[string]*Row)
+	table.delmap = make(map[string]*Row)
 	table.rows = nil
 	return util.DelDupKey(kvs), nil
 }
